@@ -2,6 +2,7 @@ package main
 
 import (
 	"fmt"
+	"go/types"
 	"strings"
 
 	"golang.org/x/tools/go/ssa"
@@ -103,32 +104,38 @@ func checkMethodKey(r *Report, p *Prog) {
 	} else {
 		t.Row(rule, "SetSignatureMethod fails", B.Not(t.V(setNil)))
 	}
-	// key and chain
+	// key and chain: read over the function and the helpers it is split into (the construction may be handed the SP's key
+	// and certificate in a parameter object)
 	fc := t.FC
+	rgK := NewRegion(p, fn, 2)
 	okKey := false
-	for _, c := range methodCallsOn(fn, dsigPath+".NewSigningContext") {
-		if strings.HasSuffix(fc.AP(c.Call.Args[0]), "ServiceProvider.Key") {
+	for _, x := range rgK.Calls(dsigPath + ".NewSigningContext") {
+		c := x.I.(*ssa.Call)
+		if strings.HasSuffix(rgK.Ctx(t.A, x.C).AP(c.Call.Args[0]), "ServiceProvider.Key") {
 			okKey = true
 		}
 	}
 	r.Check(okKey, rule, t.name+": context built from sp.Key", p.Pos(fn.Pos()), "NewSigningContext(sp.Key, chain)", "the signing context is not built from the SP's configured key")
 	okChain := false
-	for _, b := range fn.Blocks {
-		for _, in := range b.Instrs {
-			if st, ok := in.(*ssa.Store); ok {
-				if ia, ok := st.Addr.(*ssa.IndexAddr); ok {
-					if k, ok := constInt(ia.Index); ok && k == 0 && strings.HasSuffix(fc.AP(st.Val), "ServiceProvider.Certificate.Raw") {
-						okChain = true
-					}
+	rgK.Each(func(x RI) {
+		if st, ok := x.I.(*ssa.Store); ok {
+			if ia, ok := st.Addr.(*ssa.IndexAddr); ok {
+				if k, ok := constInt(ia.Index); ok && k == 0 && strings.HasSuffix(rgK.Ctx(t.A, x.C).AP(st.Val), "ServiceProvider.Certificate.Raw") {
+					okChain = true
 				}
 			}
 		}
-	}
+	})
 	r.Check(okChain, rule, t.name+": chain starts with sp.Certificate", p.Pos(fn.Pos()), "chain[0] = sp.Certificate.Raw", "the certificate chain does not start with the SP's certificate (the one published in metadata)")
-	for _, c := range methodCallsOn(fn, "(*"+dsigPath+".SigningContext).SetSignatureMethod") {
-		ap := fc.AP(c.Call.Args[1])
+	nSet := 0
+	for _, x := range rgK.Calls("(*" + dsigPath + ".SigningContext).SetSignatureMethod") {
+		c := x.I.(*ssa.Call)
+		nSet++
+		ap := rgK.Ctx(t.A, x.C).AP(c.Call.Args[1])
 		r.Check(strings.HasSuffix(ap, "ServiceProvider.SignatureMethod"), rule, t.name+": configured method handed to the context", p.InstrPos(c), ap, "SetSignatureMethod receives "+ap)
 	}
+	_ = fc
+	_ = nSet
 }
 
 type ctor struct {
@@ -547,6 +554,24 @@ func checkSPMetadataSigning(r *Report, p *Prog) {
 							use, _ = constStr(st.Val)
 						}
 					}
+				}
+			}
+		}
+		if use == "" {
+			// the descriptor literal is built by a helper that is told the use: the value its Use field gets in this
+			// activation
+			if st, ok := derefType(av.Type()).Underlying().(*types.Struct); ok {
+				for k := 0; k < st.NumFields(); k++ {
+					if st.Field(k).Name() != "Use" {
+						continue
+					}
+					rg.walkLiteralField(RV{V: av, C: xi.C}, k, func(fv RV) {
+						for _, o := range rg.Origins(fv) {
+							if s, ok := constStr(o.V); ok {
+								use = s
+							}
+						}
+					})
 				}
 			}
 		}
